@@ -1237,7 +1237,9 @@ class TmpStore:
         # a copy of the index here.  An alternative would be to ensure that
         # all callers pass copies.  As is, our callers do not make copies.
         self.index = index.copy()
-        self.creating = creating
+        # The same holds for `creating`: savepoint() updates self.creating in
+        # place, which must not change the dict a Savepoint remembers.
+        self.creating = creating.copy()
 
 
 class RootConvenience:
